@@ -135,7 +135,8 @@ def plan(g, seed, min_jobs=64, keep=None):
     rng = random.Random(seed)
     pl = Plan()
     step = {}
-    for n, es in g.out.items():
+    for n in sorted(g.out):        # fingerprints are stable for a fixed -fp: the plan depends on the seed only
+        es = g.out[n]
         st = sorted(e for e in es if not e[0].startswith('Damage'))
         rng.shuffle(st)
         step[n] = st
